@@ -298,8 +298,8 @@ func driveSec1(c *ctx) {
 		xss = append(xss, new(big.Int).Mod(p.x, bigN))
 	}
 	for i := 0; i < c.scale(10, 200); i++ {
-		xss = append(xss, randBig(r, span))                            // x + n < p: second candidate exists iff on curve
-		xss = append(xss, new(big.Int).Add(span, randBig(r, span)))    // x + n >= p: bit 1 must fail
+		xss = append(xss, randBig(r, span))                         // x + n < p: second candidate exists iff on curve
+		xss = append(xss, new(big.Int).Add(span, randBig(r, span))) // x + n >= p: bit 1 must fail
 	}
 	xss = append(xss, add(span, -1), span, add(span, 1), big.NewInt(0), big.NewInt(1), add(bigN, -1))
 	for i, xs := range xss {
